@@ -567,20 +567,25 @@ class Bincount(C13Entry):
 ENTRIES = [Ids(), Intersect(), Bincount()]
 
 TRUSTED = [
-    "Coq 8.16.1 kernel (coqc, vm_compute; no native_compute).  The discrete C13 theorems (ids, traversal, counts, checkers, "
-    "cast vs floor on rationals) are closed under the global context; C13_logbin, C13_edges, C13_trunc_vs_floor, "
-    "C13_bincount_cast_refuted, C13_floor_real_rational use the stdlib real-number axioms (sig_forall_dec, sig_not_dec, "
-    "functional_extensionality_dep, classic) through Reals and Flocq's Raux (Zfloor/Ztrunc)",
-    "modelled, not verified (Section variables with hypotheses, monitored on every case): the floating-point root/child choice of "
-    "SpatialIndex::idByPoint (hypotheses root_ok, digits_ok, never_stuck: monitored by the range test, which C13_range_monitor_complete "
-    "shows complete); the geometric cover SpatialDomain::intersect (H_cover = Spec.cover_ok: monitored by Spec.cover_check on the lists "
-    "the real intersect returns, and by sampling positions in and around the circle); the reverse-index layout of "
-    "esutil.stat.histogram (Spec.rev_ok_on: monitored by Spec.rev_check on every listed triangle); the IEEE evaluation of "
-    "gcirc/log10/division (ModelR.v is the formula chain over the reals; the implementation's bin decisions are compared with an "
-    "independent 80-bit long-double oracle for every pair outside the statement's 1e-9 relative zone)",
-    "the definition of angular separation used by the oracle (haversine formula, harness/props/c13_geom.py) and the oracle's "
-    "long-double libm (sinl, cosl, atan2l, log10l, expm1l)",
-    "python harness (harness/props/C13.py, c13_geom.py), literal printers, coqc evaluating Exec.v verdict terms; "
+    "Coq 8.16.1 kernel (coqc, vm_compute; no native_compute).  The discrete C13 theorems (abstract descent, traversal, counts, checkers, "
+    "cast vs floor on rationals) are closed under the global context; the C13_concrete_* theorems use only the PrimFloat/Uint63 primitives "
+    "(no axioms about them); C13_logbin, C13_edges, C13_trunc_vs_floor, C13_bincount_cast_refuted, C13_floor_real_rational use the stdlib "
+    "real-number axioms (sig_forall_dec, sig_not_dec, functional_extensionality_dep, classic) through Reals and Flocq's Raux (Zfloor/Ztrunc)",
+    "id lookup: SpatialIndex::idByPoint / isInside / the vector arithmetic are modelled bit-exactly in PrimFloat (FloatModel.v) and compared "
+    "with the ids of the real code at depths 0..20 for every sampled position; assumed: the compiler evaluates the C++ double expressions in "
+    "IEEE binary64 without contraction (baseline x86-64), PrimFloat's operations are IEEE binary64, and the unit vector of a position is "
+    "recomputed by the harness with libm's cos/sin as SpatialVector::updateXYZ does (its shape is checked by the translator)",
+    "modelled, not verified (Section variables with hypotheses, monitored on every case): the geometric cover SpatialDomain::intersect "
+    "(H_cover = Spec.cover_ok: monitored by Spec.cover_check on the lists the real intersect returns for the cap cbincount searches, and by "
+    "sampling positions in and around the circle); the reverse-index layout of esutil.stat.histogram (Spec.rev_ok_on: monitored by "
+    "Spec.rev_check on every listed triangle); the IEEE evaluation of gcirc/log10/division (ModelR.v is the formula chain over the reals; "
+    "the implementation's bin decisions are compared with an independent 80-bit long-double oracle for every pair outside the statement's "
+    "1e-9 relative zone)",
+    "the definition of angular separation used by the oracle (haversine formula, harness/props/c13_geom.py; valid below ~179.9 degrees) and "
+    "the oracle's long-double libm (sinl, cosl, atan2l, log10l, expm1l)",
+    "translator harness/props/c13_translate.py (fail-closed shape check of every modelled C++/python statement; reads the bin-number function, "
+    "the search-cap margin, gEpsilon, saveDepth, gPi from the tree under test and feeds them to the Coq model)",
+    "python harness (harness/props/C13.py, c13_geom.py), literal printers, coqc evaluating Exec.v / ExecF.v verdict terms; "
     "generated interval lemmas tie ModelR.quotient / ModelR.edge to the oracle quotient and to the bin edges bincount returns "
     "(Interval tactic: FloatAxioms/Uint63 primitive specifications)",
     "coverage limit: intersect lists are explored up to ~20000 triangles per call (depth 12 only with radii below ~1 degree, radius "
@@ -589,8 +594,9 @@ TRUSTED = [
 ]
 
 DISCRETE = ["C13_id_range", "C13_hierarchy", "C13_range_monitor_complete", "C13_scalar_equals_array",
-            "C13_intersect_full_in_inclusive", "C13_rev_traversal_visits_each_member_once", "C13_bincount",
-            "C13_precomputed_equals_internal", "C13_any_reverse_index_layout", "C13_radbin_spec", "C13_cast_vs_floor",
+            "C13_intersect_full_in_inclusive", "C13_intersect_checker_strict", "C13_intersect_outside_known",
+            "C13_rev_traversal_visits_each_member_once", "C13_bincount",
+            "C13_precomputed_equals_internal", "C13_any_reverse_index_layout", "C13_bincount_checker", "C13_radbin_spec", "C13_cast_vs_floor",
             "C13_checkers_sound"]
 
 LPRE = ("From Coq Require Import Reals.\nFrom Interval Require Import Tactic.\n"
